@@ -61,6 +61,8 @@ impl GCase {
     }
     pub fn json(&self) -> Value {
         json!({
+            "duplicate_policy_used_by_build": format!("{:?}", self.effective_specs().dedupe),
+            "late_duplicate_variant": self.edges.len() % 4,
             "kind": self.specs.kind_label(),
             "family": self.family,
             "wclass": format!("{:?}", self.wclass),
@@ -76,14 +78,61 @@ impl GCase {
         fnv(s.as_bytes())
     }
     /// Builds the real graph with permissive policies (create missing, keep-last, drop loops).
+    /// Single-edge cases alternate between the two duplicate policies that never reject.
+    pub fn effective_specs(&self) -> Specs {
+        let mut s = self.specs;
+        if !s.multi {
+            match (self.names.len() + self.edges.len()) % 3 {
+                0 => s.dedupe = crate::model::Dedupe::KeepFirst,
+                1 => {
+                    // rejecting duplicates is only usable when the case has none of its own
+                    let mut seen = std::collections::HashSet::new();
+                    let distinct = self.edges.iter().all(|(u, v, _)| seen.insert(if !s.directed && u > v { (*v, *u) } else { (*u, *v) }));
+                    if distinct {
+                        s.dedupe = crate::model::Dedupe::Error;
+                    }
+                }
+                _ => {}
+            }
+        }
+        s
+    }
     pub fn build(&self) -> GS {
-        let mut g: GS = Graph::new(self.specs.to_real());
-        for n in &self.names {
-            g.add_node(Node::from_name(n.clone()));
+        let specs = self.effective_specs();
+        let mut g: GS = Graph::new(specs.to_real());
+        // in every other case the nodes are not announced: an edge (possibly a self-loop) is the
+        // first mention of its endpoints and creates them; nodes without edges follow at the end
+        let announce = (self.names.len() + 2 * self.edges.len()) % 4 < 2;
+        if announce {
+            for n in &self.names {
+                g.add_node(Node::from_name(n.clone()));
+            }
+        } else {
+            crate::ctx::count("build:nodes-created-by-their-first-edge");
+        }
+        let keep_first = specs.dedupe != crate::model::Dedupe::KeepLast;
+        let all_real = !self.edges.is_empty() && self.edges.iter().all(|e| !e.2.is_nan());
+        let dup_phase = !specs.multi && all_real;
+        let small = self.names.len() <= 40;
+        let variant = self.edges.len() % 4;
+        let mk = |u: usize, v: usize, w: f64| -> Arc<Edge<String, ()>> { Arc::new(Edge { u: self.names[u].clone(), v: self.names[v].clone(), attributes: None, weight: w }) };
+        if dup_phase && !keep_first && variant == 3 {
+            // the first pair is first stored without a weight; the weighted edge replaces it below
+            let (u, v, _) = self.edges[0];
+            if crate::ctx::guard("add_edge", || g.add_edge(mk(u, v, f64::NAN))).is_err() {
+                crate::ctx::abandon_case("add_edge-panicked-while-building-the-input");
+            }
         }
         // identical edges are handed over as clones of one Arc (as `vec![edge; k]` would)
         let mut arcs: std::collections::HashMap<(usize, usize, u64), Arc<Edge<String, ()>>> = std::collections::HashMap::new();
-        for (u, v, w) in &self.edges {
+        let half = self.edges.len() / 2;
+        for (k, (u, v, w)) in self.edges.iter().enumerate() {
+            if k == half && half > 0 && self.names.len() <= 40 {
+                crate::ctx::count("build:queries-on-the-half-built-graph");
+                // queries on the half-built graph: anything they cache must not survive the
+                // mutations that follow
+                quiet_warm_up(&g);
+            }
             let e = arcs
                 .entry((*u, *v, w.to_bits()))
                 .or_insert_with(|| {
@@ -95,12 +144,55 @@ impl GCase {
                     })
                 })
                 .clone();
-            g.add_edge(e).expect("permissive specs never reject an edge");
+            match crate::ctx::guard("add_edge", || g.add_edge(e)) {
+                Ok(r) => r.expect("permissive specs never reject an edge"),
+                Err(_) => crate::ctx::abandon_case("add_edge-panicked-while-building-the-input"),
+            }
+        }
+        if !announce {
+            for n in &self.names {
+                if !g.has_node(n) {
+                    g.add_node(Node::from_name(n.clone()));
+                }
+            }
         }
         // a node re-add (an attribute update) after the edges exist must change nothing
         for (i, n) in self.names.iter().enumerate() {
             if i % 3 == 1 {
                 g.add_node(Node::from_name(n.clone()));
+            }
+        }
+        // on single-edge graphs the finished graph is queried and then a duplicate of its first
+        // edge arrives: replaced under keep-last, discarded under keep-first; node and edge counts
+        // stay the same either way, and nothing computed before may leak into later answers
+        if dup_phase {
+            let (u, v, w) = self.edges[0];
+            let maxw = self.edges.iter().map(|e| e.2.abs()).fold(0.0, f64::max);
+            let minw = self.edges.iter().map(|e| e.2).fold(f64::INFINITY, f64::min);
+            // the duplicate's weight stays within the magnitude of the case's own weights: a
+            // weight that absorbs the others in floating point would act as a zero-weight edge
+            let unit = if maxw >= 0.25 && maxw <= 1e6 { 1.0 } else if maxw > 0.0 { maxw } else { 1.0 };
+            let dup = match variant {
+                0 => Some(2.0 * maxw + unit),
+                1 => Some(if minw > 0.0 { minw * 0.5 } else { w * 1.5 + 0.25 * unit }),
+                2 => Some(if keep_first { f64::NAN } else { w * 1.5 + 0.25 * unit }),
+                _ => if keep_first { Some(f64::NAN) } else { None },
+            };
+            if let Some(dw) = dup {
+                if dw.is_nan() || dw.is_finite() {
+                    crate::ctx::count(match specs.dedupe {
+                        crate::model::Dedupe::KeepLast => "build:late-duplicate:replaced",
+                        crate::model::Dedupe::KeepFirst => "build:late-duplicate:discarded",
+                        crate::model::Dedupe::Error => "build:late-duplicate:rejected",
+                    });
+                    if small {
+                        quiet_warm_up(&g);
+                    }
+                    match crate::ctx::guard("add_edge", || g.add_edge(mk(u, v, dw))) {
+                        Ok(r) => assert!(r.is_ok() || specs.dedupe == crate::model::Dedupe::Error, "only the rejecting policy may refuse the duplicate"),
+                        Err(_) => crate::ctx::abandon_case("add_edge-panicked-while-building-the-input"),
+                    }
+                }
             }
         }
         g
@@ -395,6 +487,72 @@ pub fn diamond_chain(specs: Specs, k: usize, wclass: WClass, rng: &mut Rng) -> G
     }
     rng.shuffle(&mut edges);
     GCase { specs, names, edges, family: "diamond_chain", wclass }
+}
+
+/// Calls a spread of read-only functions and throws the answers away (see `GCase::build`).
+/// `warm_up` with panics contained: a read-only call that panics is the business of C20, not of
+/// the property whose input is being prepared; it is counted and the preparation goes on.
+pub fn quiet_warm_up<A: Clone + Send + Sync>(g: &Graph<String, A>) {
+    if crate::ctx::guard("warm_up", || warm_up(g)).is_err() {
+        crate::ctx::count("preparation:read-only-bundle-panicked-or-overran");
+        graphrs::verif_hooks::set_budget("louvain_sweep", None);
+    }
+}
+
+pub fn warm_up<A: Clone + Send + Sync>(g: &Graph<String, A>) {
+    use graphrs::algorithms::centrality::{betweenness, closeness, degree, eigenvector};
+    use graphrs::algorithms::shortest_path::dijkstra;
+    use graphrs::algorithms::{cluster, community::louvain, community::partitions, components};
+    let w = g.edges_have_weight() && !g.get_all_edges().is_empty();
+    for weighted in [false, w] {
+        let _ = closeness::closeness_centrality(g, weighted, true);
+        let _ = betweenness::betweenness_centrality(g, weighted, true);
+        let _ = dijkstra::all_pairs(g, weighted, None, None, true, true);
+        let _ = cluster::clustering(g, weighted, None);
+        let _ = eigenvector::eigenvector_centrality(g, weighted, Some(20), Some(1e-3));
+    }
+    let _ = degree::degree_centrality(g);
+    let _ = g.get_density();
+    let _ = g.get_sparse_adjacency_matrix();
+    let _ = g.reverse();
+    let _ = g.to_single_edges();
+    let _ = g.get_subgraph(&g.get_all_node_names().into_iter().cloned().collect::<Vec<_>>());
+    let _ = components::connected_components(g);
+    let _ = components::strongly_connected_components(g);
+    let _ = components::weakly_connected_components(g);
+    let _ = cluster::transitivity(g);
+    let _ = cluster::triangles(g, None);
+    let some: Vec<String> = g.get_all_node_names().into_iter().take(4).cloned().collect();
+    let _ = cluster::triangles(g, Some(&some));
+    let _ = cluster::generalized_degree(g, Some(&some));
+    let _ = cluster::clustering(g, w, Some(&some));
+    let _ = cluster::average_clustering(g, w, Some(&some), true);
+    let _ = cluster::square_clustering(g, Some(&some));
+    let everyone: Vec<std::collections::HashSet<String>> = vec![g.get_all_node_names().into_iter().cloned().collect()];
+    let _ = partitions::modularity(g, &everyone, w, None);
+    let _ = partitions::modularity(g, &everyone, false, Some(1.0));
+    let _ = g.edges_have_weight();
+    if let Some(first) = some.first() {
+        let _ = dijkstra::single_source(g, w, first.clone(), None, Some(1.0), false, true);
+        let _ = dijkstra::multi_source(g, w, some.clone(), None, None, false, true);
+        let _ = dijkstra::get_all_shortest_paths_involving(g, first.clone(), w);
+    }
+    if !g.get_all_edges().is_empty() {
+        graphrs::verif_hooks::set_budget("louvain_sweep", Some(2000));
+        let r = std::panic::catch_unwind(std::panic::AssertUnwindSafe(|| louvain::louvain_communities(g, w, None, None, Some(1))));
+        graphrs::verif_hooks::set_budget("louvain_sweep", None);
+        graphrs::verif_hooks::take_ticks("louvain_sweep");
+        if let Ok(Ok(c)) = r {
+            let _ = partitions::modularity(g, &c, w, None);
+        }
+    }
+    let _ = g.number_of_edges();
+    let _ = g.size(true);
+    for n in g.get_all_node_names().into_iter().take(3) {
+        let _ = g.get_node_degree(n.clone());
+        let _ = g.get_edges_for_node(n.clone());
+        let _ = g.breadth_first_search(n);
+    }
 }
 
 pub fn kinds8() -> Vec<Specs> {
